@@ -197,10 +197,16 @@ class Recorder:
         return t
 
     # ---------------------------------------------------------------- snapshot
-    def snapshot(self, S, cold=True, acq=True):
-        """The observation battery of one circuit structure, through the public observers."""
-        ops = S.decomposed_operations()                     # = DeclarativeCircuit.operations
-        ops2 = S.decomposed_operations()
+    def snapshot(self, S, cold=True, acq=True, handle=None):
+        """The observation battery of one circuit, through the public observers of the handle the program holds
+        (DeclarativeCircuit.operations / get_acquisition_indices / exporters); nested blocks through the structure."""
+        self._handle = handle if (handle is not None and handle.circuit_structure is S) else None
+        if self._handle is not None:
+            ops = self._handle.operations
+            ops2 = self._handle.operations
+        else:
+            ops = S.decomposed_operations()
+            ops2 = S.decomposed_operations()
         comps = [S] + list(S.get_sub_composite_operations())
         members = {}
         for c in comps:
@@ -249,8 +255,10 @@ class Recorder:
         try:
             from qce_circuit.addon_stim import to_stim
             import stimread
-            h = DeclarativeCircuit()
-            h._structure = S
+            h = getattr(self, '_handle', None)
+            if h is None or h.circuit_structure is not S:
+                h = DeclarativeCircuit()
+                h._structure = S
             text = str(to_stim(h))
             two = ('CZ', 'CX', 'CNOT', 'CY', 'SWAP', 'ISWAP')
             none = ('TICK', 'DETECTOR', 'OBSERVABLE_INCLUDE', 'SHIFT_COORDS', 'QUBIT_COORDS')
@@ -269,8 +277,10 @@ class Recorder:
             return {'status': 'none', 'flat': [], 'names': [], 'same_twice': True}
         from qce_circuit.language.declarative_circuit import DeclarativeCircuit
         import openql_double
-        h = DeclarativeCircuit()
-        h._structure = S
+        h = getattr(self, '_handle', None)
+        if h is None or h.circuit_structure is not S:
+            h = DeclarativeCircuit()
+            h._structure = S
         return openql_double.export(h)
 
     def acq_filters(self, S, ops):
@@ -282,8 +292,10 @@ class Recorder:
         out = {'by_q': [], 'by_tag': [], 'stim_m': {'status': 'none', 'targets': []}}
         if not ms:
             return out
-        h = DeclarativeCircuit()
-        h._structure = S
+        h = self._handle
+        if h is None:
+            h = DeclarativeCircuit()
+            h._structure = S
         for qb in sorted(set(o.qubit_index for o in ms)):
             out['by_q'].append([qb, [int(x) for x in h.get_acquisition_indices(qb)]])
         for qb, tg in sorted(set((o.qubit_index, o.acquisition_tag) for o in ms)):
